@@ -83,8 +83,8 @@ class AstToSqlVisitor(visitor.NodeVisitor):
             intervals.append(f"INTERVAL '{seconds}' SECOND")
 
         if len(intervals) == 0:
-            # Shouldn't occur but whatever
-            return ""
+            # E.g. duration'P': there is nothing to express as an interval.
+            raise exceptions.ValueException(node.val)
         if len(intervals) == 1:
             return f"{sign}{intervals[0]}"
         if len(intervals) > 1:
